@@ -240,17 +240,30 @@ fn send_request_failed_error(
     }))
 }
 
+/// The analyzer reports byte offsets, but LSP positions are measured in
+/// UTF-16 code units, which differ as soon as a line contains non-ASCII text.
+fn byte_index_to_utf16_column(line: &str, byte_index: usize) -> u32 {
+    line.char_indices()
+        .take_while(|(index, _)| *index < byte_index)
+        .map(|(_, ch)| ch.len_utf16() as u32)
+        .sum()
+}
+
 fn get_semantic_tokens(analyzer: &SourceFileAnalyzer) -> SemanticTokens {
     let mut data: Vec<SemanticToken> = vec![];
     let mut prev_line_number = 0;
+    let source_lines = analyzer.source_file_lines();
     for (line_number, line) in analyzer.token_types().iter().enumerate() {
         let mut prev_token_start = 0;
+        let source_line = source_lines[line_number].as_str();
         for (abasic_token_type, range) in line {
             let delta_line = (line_number - prev_line_number) as u32;
             prev_line_number = line_number;
-            let delta_start = (range.start - prev_token_start) as u32;
-            prev_token_start = range.start;
-            let length = range.len() as u32;
+            let start = byte_index_to_utf16_column(source_line, range.start);
+            let end = byte_index_to_utf16_column(source_line, range.end);
+            let delta_start = start - prev_token_start;
+            prev_token_start = start;
+            let length = end - start;
             let token_type = abasic_token_type_to_lsp_token_type(*abasic_token_type);
             data.push(SemanticToken {
                 delta_line,
@@ -274,9 +287,16 @@ fn analyze_source_file(analyzer: &SourceFileAnalyzer) -> Vec<Diagnostic> {
     let source_map = analyzer.source_file_map();
     for message in messages {
         if let Some((line, range)) = source_map.map_to_source(&message) {
+            let source_line = analyzer.source_file_lines()[line].as_str();
             let diag_range = Range::new(
-                Position::new(line as u32, range.start as u32),
-                Position::new(line as u32, range.end as u32),
+                Position::new(
+                    line as u32,
+                    byte_index_to_utf16_column(source_line, range.start),
+                ),
+                Position::new(
+                    line as u32,
+                    byte_index_to_utf16_column(source_line, range.end),
+                ),
             );
             let (severity, content) = match message {
                 DiagnosticMessage::Warning(_line, _loc, msg) => {
